@@ -62,7 +62,7 @@ static Out out_scalar(const T &v) {
 }
 
 // ----- T-generic expressions with their AST (for the shadow)
-constexpr int NEXPR = 10;
+constexpr int NEXPR = 13;
 template <class T, int E, class F>
 static auto make_expr(const F &f) {
   if constexpr (E == 0) { (void)f; return bo::IdentityOperator{}; }
@@ -74,6 +74,9 @@ static auto make_expr(const F &f) {
   else if constexpr (E == 6) { return bo::SplineOperator{f} * bo::Dx<1>{}; }
   else if constexpr (E == 8) { (void)f; return bo::X<1>{} / 3.0f + 0.75f; }            // scalar type narrower than the spline's
   else if constexpr (E == 9) { (void)f; return (2.5f * bo::Dx<1>{}) / 7; }               // int divisor, not a power of two
+  else if constexpr (E == 10) { (void)f; return bo::X<1>{} - 3u; }                        // unsigned scalar subtracted from an operator
+  else if constexpr (E == 11) { (void)f; return -(2u * bo::Dx<1>{}); }                     // unary minus on a node scaled by an unsigned scalar
+  else if constexpr (E == 12) { (void)f; return static_cast<size_t>(3) - bo::X<2>{} / 4u; } // size_t minus operator, unsigned divisor
   else { (void)f; return bo::Dx<1>{} * bo::X<1>{} - bo::X<1>{} * bo::Dx<1>{}; }
 }
 static ex::NP expr_ast(int e) {
@@ -88,6 +91,9 @@ static ex::NP expr_ast(int e) {
     case 6: return MUL(SOP(0), D(1));
     case 8: return ADDC(DIV(X(1), rq(3)), rq(3, 4));
     case 9: return DIV(SCALE(rq(5, 2), D(1)), rq(7));
+    case 10: return SUBC(X(1), rq(3));
+    case 11: return NEG(SCALE(rq(2), D(1)));
+    case 12: return CSUB(rq(3), DIV(X(2), rq(4)));
     default: return SUB(MUL(D(1), X(1)), MUL(X(1), D(1)));
   }
 }
